@@ -68,6 +68,20 @@ def run(ctx):
             ctx.violation("c06:server-crash:%s:%s" % (cr["func"], "ufs" if ufs else "scripted"),
                           "server panicked in hostile case %s: %s" % (cr["case"], cr["panic"]),
                           {"engine": "TestHostile", "ufs": ufs, "case": cr["case"], "seed": ctx.seed})
+    # 4. concurrency-dependent crash sites (a request cancelled before it starts, late and extra answers, disconnects in
+    #    mid-flight): seeded sessions under the gate controller, with a client that also misuses fids
+    for i, (n, close) in enumerate([(8, False), (6, True)]):
+        cr = srvfam.consts(ctx, NReq=n, Tags=set(range(1, n + 1)), Fids={1, 2, 3}, Kinds={"Attach", "Stat", "Clunk", "Walk", "Flush"},
+                           Extra=True, Late=True, InitFids={1}, CanClose=close)
+        rc = {"cases": 200 if q else 2500, "nreq": n, "kinds": ["Attach", "Attach", "Stat", "Clunk", "Walk", "Flush", "Flush"], "shared": False,
+              "close": close, "extra": True, "latep": 15, "sendp": 40, "probe": False, "insane": True}
+        rrep, tp, ep, bp = srvfam.random_run(ctx, cr, rc, "c06rand%d" % i, 900000 + 50000 * i)
+        cases += int(rrep.get("cases_total", 0) or 0)
+        for crs in rrep.get("crashes") or []:
+            crashes_total += 1
+            ctx.violation("c06:server-crash:%s:gated" % crs["func"], "server panicked in gated session %s: %s" % (crs["case"], crs["panic"]),
+                          {"engine": "TestRandom", "constants": {k: (sorted(v) if isinstance(v, (set, frozenset)) else v) for k, v in cr.items()},
+                           "config": srvfam.harness_cfg(cr), "behaviour": srvfam.case_replay(bp, crs["case"])})
     cov = {"states": states, "transitions": trans, "traces_validated_against_impl": cases, "samples": samples[:4] or [{"note": "no sample"}],
            "evaluations": cases, "distinct_nontrivial": cases,
            "rule": "reference-machine histories (tour) + one case per Wire9P mutation vector sent as a frame + seeded adversarial / mutated / "
